@@ -5,13 +5,14 @@ CONSTANTS
   Thr = 2
   Cap = 1
   LeakChoices = {FALSE}
-  CapDecrChoices = {FALSE}
+  CapDecrChoices = {TRUE}
+  SatChoices = {TRUE}
   AtomicSetPhase = TRUE
-  Proc = {"p1", "p2", "p3"}
+  Proc = {"p1", "p2"}
   NoProc = "nobody"
   NoOp <- MCNoOp
-  OpSet <- MutexOpsSmall
-  Budget <- Budget211
+  OpSet <- MutexOps
+  Budget <- Budget21
 INVARIANTS TypeOK C37_ShareCap C37_NoDeadlock
 PROPERTIES C37_ShareOnce C37_FinalizedSticky C37_PhaseMonotone C37_TimeoutMonotone
 CHECK_DEADLOCK TRUE
